@@ -59,6 +59,7 @@ type options struct {
 	KeepOrphans bool   // do not close orphaned DB objects before the lock/fd probes
 	Exclude     string // comma separated operation names never drawn
 	NoCancel    bool   // never draw cancelled contexts
+	ListReaders int    // goroutines walking store.DBs() like the monitors / status handlers
 	LSLog       string // file receiving litestream's debug log
 }
 
@@ -155,6 +156,7 @@ func main() {
 	flag.StringVar(&o.Discipline, "discipline", "daemon", "api: no harness serialisation; daemon: one compaction per (db,level) and one snapshot per db at a time, as the daemon's monitors guarantee; strict: additionally register/unregister of one path are mutually exclusive")
 	flag.BoolVar(&o.KeepOrphans, "keeporphans", false, "do not close orphaned (re-initialised after Close) DB objects before the lock/fd probes, to see what they leak")
 	flag.StringVar(&o.LSLog, "lslog", "", "diagnostic: write litestream's debug log to this file")
+	flag.IntVar(&o.ListReaders, "listreaders", 2, "goroutines that walk store.DBs() (Path/IsOpen/Pos/… on every element) concurrently with the workers")
 	flag.BoolVar(&o.NoCancel, "nocancel", false, "never draw cancelled contexts")
 	flag.StringVar(&o.Exclude, "exclude", "", "comma separated operation names that are never drawn (e.g. unreg,reg,regstorm,disable,enable)")
 	flag.Parse()
@@ -640,12 +642,68 @@ func (h *harness) run(replay [][]string) error {
 			h.worker(g, opRand, pertRand, list, replay != nil)
 		}(g)
 	}
+	// 4b. list readers: what every consumer of Store.DBs() does (compaction / retention / heartbeat monitors,
+	// the control socket's list & status handlers): take the list, then walk it WITHOUT the store lock. The list
+	// must be a snapshot: no nil entry, no entry changing underfoot, no data race with Register/Unregister.
+	stopReaders := make(chan struct{})
+	var rwg sync.WaitGroup
+	for r := 0; r < h.o.ListReaders; r++ {
+		pr := root.Fork()
+		rwg.Add(1)
+		go func() {
+			defer rwg.Done()
+			h.dbsReader(ctx, store, pr, stopReaders)
+		}()
+	}
 	close(startGate)
 	wg.Wait()
+	close(stopReaders)
+	rwg.Wait()
 
 	// 6. final phase
 	h.final(ctx, ws)
 	return nil
+}
+
+// dbsReader loops over store.DBs() like the store's monitors and the status handlers do.
+func (h *harness) dbsReader(ctx context.Context, store *litestream.Store, r *hx.Rand, stop <-chan struct{}) {
+	for {
+		select {
+		case <-stop:
+			return
+		default:
+		}
+		_, panicked := h.call(-1, "reader:DBs", func() error {
+			list := store.DBs()
+			seen := map[string]int{}
+			for i := 0; i < len(list); i++ {
+				if r.Chance(50) {
+					runtime.Gosched() // the consumers do I/O between elements
+				}
+				db := list[i]
+				if db == nil {
+					h.violate("dbs-nil-entry", fmt.Sprintf("store.DBs() returned a list whose element %d of %d is (or became) nil", i, len(list)), "")
+					continue
+				}
+				seen[db.Path()]++
+				_ = db.IsOpen()
+				_ = db.PageSize()
+				_, _ = db.Pos()
+				_ = db.SyncDiagnostic()
+			}
+			for p, n := range seen {
+				if n > 1 {
+					h.violate("dbs-duplicate-entry", fmt.Sprintf("one walk over store.DBs() met path %s %d times", filepath.Base(p), n), "")
+				}
+			}
+			return nil
+		})
+		if panicked {
+			return
+		}
+		h.count("reader:DBs")
+		time.Sleep(time.Duration(r.Intn(300)) * time.Microsecond)
+	}
 }
 
 // worker executes K drawn (or the replayed) operations.
